@@ -488,13 +488,13 @@ theorem evalTxn_conserves {P : Params} {x : Ctx} {l l' : Layer} {g : List Txn} {
           exact (money_congr P x l1 _ U (fun b _ => acctOf_addTx x l1 _ b)).trans (applyTxn_conserves hU hA h1)
 
 theorem groupLoop_conserves {P : Params} {x : Ctx} {g : List Txn} {g0 : Nat} {U : List Addr} (hU : U.Nodup) :
-    ∀ (ts : List Txn) (i : Nat) (l l' : Layer), (∀ t ∈ ts, ∀ a ∈ txnAddrs P t, a ∈ U) →
-      groupLoop P x g g0 i l ts = .ok l' → money P x l' U = money P x l U := by
+    ∀ (ts : List Txn) (used i : Nat) (l l' : Layer), (∀ t ∈ ts, ∀ a ∈ txnAddrs P t, a ∈ U) →
+      groupLoop P x g g0 used i l ts = .ok l' → money P x l' U = money P x l U := by
   intro ts
   induction ts with
-  | nil => intro i l l' _ h; cases h; rfl
+  | nil => intro used i l l' _ h; cases h; rfl
   | cons t r ih =>
-    intro i l l' hA h
+    intro used i l l' hA h
     unfold groupLoop at h
     split at h
     · cases h
@@ -503,7 +503,9 @@ theorem groupLoop_conserves {P : Params} {x : Ctx} {g : List Txn} {g0 : Nat} {U 
       · cases h
       · split at h
         · cases h
-        · rw [ih (i + 1) l1 l' (fun t' ht' => hA t' (List.mem_cons_of_mem _ ht')) h]
-          exact evalTxn_conserves hU (hA t List.mem_cons_self) h1
+        · split at h
+          · cases h
+          · rw [ih _ (i + 1) l1 l' (fun t' ht' => hA t' (List.mem_cons_of_mem _ ht')) h]
+            exact evalTxn_conserves hU (hA t List.mem_cons_self) h1
 
 end AlgoVerif.Lemmas.LedgerCore
